@@ -32,7 +32,7 @@ CONSTANTS Scripts,   \* <<[host |-> "h1", ops |-> <<"loadp", "update", "demote">
           Modern     \* lock library breaks a dead same-host process' marker and JADE's deliberate (malformed) marker
 
 H == 1..Len(Scripts)
-Ops == {"load", "loadp", "promote", "demote", "update", "jsonly", "cancel", "complete", "recreate"}
+Ops == {"load", "loadp", "promote", "demote", "update", "jsonly", "cancel", "complete", "recreate", "wait"}
 
 VARIABLES cfg, cfgVerF, js, jsVerF,   \* disk
           lock,                        \* "free" | "deliberate" | "dead" (marker of a killed process)
@@ -129,12 +129,12 @@ Skip(h) ==
 
 \* a process whose load failed has no Cluster object: its script ends
 Abort(h) ==
-  /\ hd[h].pc <= Len(Scripts[h].ops) /\ ~hd[h].loaded /\ Op(h) \notin {"load", "loadp", "recreate"}
+  /\ hd[h].pc <= Len(Scripts[h].ops) /\ ~hd[h].loaded /\ Op(h) \notin {"load", "loadp", "recreate", "wait"}
   /\ hd' = [hd EXCEPT ![h].pc = Len(Scripts[h].ops) + 1] /\ Feed(<<"Skip", h>>, <<>>)
   /\ UNCHANGED <<cfg, cfgVerF, js, jsVerF, lock, deadHost>>
 
 Blocked(h) ==
-  /\ hd[h].pc <= Len(Scripts[h].ops) /\ ~Avail(h) /\ ~Skippable(h) /\ Op(h) # "recreate"
+  /\ hd[h].pc <= Len(Scripts[h].ops) /\ ~Avail(h) /\ ~Skippable(h) /\ Op(h) \notin {"recreate", "wait"}
   /\ (hd[h].loaded \/ Op(h) \in {"load", "loadp"})
   /\ Advance(h, hd[h])
   /\ Feed(<<"Blocked", h>>, <<EvCop(h, Op(h), "Timeout", FALSE, FALSE, FALSE, FALSE)>>)
@@ -173,6 +173,13 @@ Recreate(h) ==
      /\ Release
      /\ Feed(<<"Recreate", h>>, <<[e |-> "recreated", pid |-> h], [EvCop(h, "recreate", "", TRUE, TRUE, TRUE, TRUE) EXCEPT !.loaded = FALSE, !.before = None,
                                                                                           !.hcver = 0, !.hjver = 0]>>)
+
+\* time passes for this process (two hours by its clock since the files were last written) before its next operation: the
+\* state files say who holds the role, not how long ago -- nothing an operation does may depend on their age
+Wait(h) ==
+  /\ hd[h].pc <= Len(Scripts[h].ops) /\ Op(h) = "wait"
+  /\ Advance(h, hd[h]) /\ Feed(<<"Skip", h>>, <<>>)
+  /\ UNCHANGED <<cfg, cfgVerF, js, jsVerF, lock, deadHost>>
 
 \* a cfg-only operation on an existing handle: promote_to_submitter / demote_from_submitter / mark_canceled / mark_complete
 \* (the role is a matter of the submitter field alone: a complete submission with a holder still refuses promotion)
@@ -252,7 +259,7 @@ Crash(h) ==
   /\ Feed(<<"Crash", h>>, <<[e |-> "kill", pid |-> h]>>)
 
 Next == \E h \in H : Skip(h) \/ Abort(h) \/ Blocked(h) \/ Load(h, TRUE) \/ Load(h, FALSE) \/ CfgOp(h) \/ JsOp(h) \/ Update(h)
-                      \/ Crash(h) \/ Recreate(h)
+                      \/ Crash(h) \/ Recreate(h) \/ Wait(h)
 Spec == Init /\ [][Next]_vars
 
 View == <<cfg, cfgVerF, js, jsVerF, lock, deadHost, hd, [m EXCEPT !.pos = 0, !.vpos = <<>>, !.cnt = <<>>]>>
